@@ -126,7 +126,8 @@ def one(ctx, i, tmpdir):
             eval_values["zq_vals"] = vals
         in_tree = ast.parse(in_src)
     n_pairs = 1 + (i % 3 if not evalmode else 0)
-    if i % 6 == 4 and not evalmode:
+    chained_mode = i % 6 == 4 and not evalmode
+    if chained_mode:
         n_pairs = 2 + (i // 6) % 2  # copies of one module: chained addresses need several pairs
     # candidate locations: annotated things in the input, args/annotated assignments in the output
     in_args = [l for l in pick_locs(rng, min_["locations"], in_tree, ARG_KINDS + ANN_KINDS)
@@ -148,13 +149,20 @@ def one(ctx, i, tmpdir):
             cand_out = out_args if il["kind"] in ARG_KINDS or rng.random() < 0.5 else out_anns
             if il["kind"] in ARG_KINDS:
                 cand_out = out_args
+            elif chained_mode:
+                # chained addresses among attributes / settings: the copy that an earlier pair spliced in keeps the
+                # label it had in the input file; it must not shadow the node a later pair addresses
+                cand_out = out_anns
         cand_out = [l for l in cand_out if tuple(l["path"]) not in used_out and tuple(l["path"][:-1]) not in {u[:-1] for u in used_out}]
         if not cand_out:
             break
         again = [l for l in cand_out if l.get("redeclared_in_block")]
         chained = [l for l in cand_out if tuple(l["path"]) in {tuple(p_[0]) for p_ in pairs}]
+        earlier = [l for l in cand_out if chained_mode and not pairs and l["path"] != list(ipath) and l.get("lineno", 0) < il.get("lineno", 0)]
         if chained and rng.random() < 0.7:
             ol = rng.choice(chained)
+        elif earlier and rng.random() < 0.6:
+            ol = rng.choice(earlier)  # the moved copy lands BEFORE the place it came from
         else:
             ol = rng.choice(again) if again and rng.random() < 0.6 else rng.choice(cand_out)
         used_out.add(tuple(ol["path"]))
